@@ -11,6 +11,13 @@ open Q1t Q1t.Gate Q1t.Spec Q1t.Proofs.Route Q1t.WellFormed
 
 variable {α P : Type} [CommRing α] [Amp α P]
 
+theorem nodup_of_hasDup : ∀ (l : List Nat), hasDup l = false → l.Nodup
+  | [], _ => List.nodup_nil
+  | x :: xs, h => by
+    simp only [hasDup, Bool.or_eq_false_iff] at h
+    exact List.nodup_cons.mpr ⟨by simpa using h.1, nodup_of_hasDup xs h.2⟩
+
+mutual
 theorem wf_of_gateOK : (g : GateTerm P) → gateOK g = true → Spec.WF g
   | .C g, h => by
     rw [Spec.WF]
@@ -19,41 +26,38 @@ theorem wf_of_gateOK : (g : GateTerm P) → gateOK g = true → Spec.WF g
     rw [Spec.WF]
     simp only [gateOK, Bool.and_eq_true] at h
     exact ⟨wf_of_gateOK g0 h.1, wf_of_gateOK g1 h.2⟩
-  | .Composite .., h => by simp [gateOK] at h
-  | .Loop .., h => by simp [gateOK] at h
+  | .Composite _ n ops, h => by
+    rw [Spec.WF]
+    simp only [gateOK, Bool.and_eq_true, decide_eq_true_eq] at h
+    exact ⟨h.1, wfOps_of_opsOK n ops h.2⟩
+  | .Loop _ _ _ n body, h => by
+    rw [Spec.WF]
+    simp only [gateOK, Bool.and_eq_true, decide_eq_true_eq] at h
+    exact ⟨h.1, wfOps_of_opsOK n body h.2⟩
   | .H, _ | .X, _ | .Y, _ | .Z, _ | .S, _ | .Sdg, _ | .T, _ | .Tdg, _ | .V, _ | .Vdg, _ | .I, _ => by simp [Spec.WF]
   | .RX _, _ | .RY _, _ | .RZ _, _ | .U1 _, _ | .U2 _ _, _ | .U3 _ _ _, _ => by simp [Spec.WF]
   | .CX, _ | .CY, _ | .CZ, _ | .Swap, _ => by simp [Spec.WF]
-
-theorem noComposite_of_gateOK : (g : GateTerm P) → gateOK g = true → hasComposite g = false
-  | .C g, h => by
-    rw [hasComposite]
-    exact noComposite_of_gateOK g (by simpa [gateOK] using h)
-  | .Kron g0 g1, h => by
-    simp only [gateOK, Bool.and_eq_true] at h
-    simp [hasComposite, noComposite_of_gateOK g0 h.1, noComposite_of_gateOK g1 h.2]
-  | .Composite .., h => by simp [gateOK] at h
-  | .Loop .., h => by simp [gateOK] at h
-  | .H, _ | .X, _ | .Y, _ | .Z, _ | .S, _ | .Sdg, _ | .T, _ | .Tdg, _ | .V, _ | .Vdg, _ | .I, _ => by simp [hasComposite]
-  | .RX _, _ | .RY _, _ | .RZ _, _ | .U1 _, _ | .U2 _ _, _ | .U3 _ _ _, _ => by simp [hasComposite]
-  | .CX, _ | .CY, _ | .CZ, _ | .Swap, _ => by simp [hasComposite]
-
-theorem nodup_of_hasDup : ∀ (l : List Nat), hasDup l = false → l.Nodup
-  | [], _ => List.nodup_nil
-  | x :: xs, h => by
-    simp only [hasDup, Bool.or_eq_false_iff] at h
-    exact List.nodup_cons.mpr ⟨by simpa using h.1, nodup_of_hasDup xs h.2⟩
+theorem wfOps_of_opsOK (n : Nat) : (ops : OpList P) → opsOK n ops = true → Spec.WFOps n ops
+  | .nil, _ => by simp [Spec.WFOps]
+  | .cons g bits rest, h => by
+    rw [Spec.WFOps]
+    simp only [opsOK, Bool.and_eq_true, decide_eq_true_eq, Bool.not_eq_true', List.all_eq_true] at h
+    refine ⟨wf_of_gateOK g h.1.1.1.1, h.1.1.1.2, ?_, wfOps_of_opsOK n rest h.2⟩
+    simp only [validBits, Bool.and_eq_true, List.all_eq_true, decide_eq_true_eq]
+    exact ⟨h.1.2, nodup_of_hasDup bits h.1.1.2⟩
+end
 
 theorem validBits_of_place {n : Nat} {g : GateTerm P} {bits : List Nat} (hv : ValidPlace n g bits) :
     validBits n bits = true := by
   simp only [validBits, Bool.and_eq_true, List.all_eq_true, decide_eq_true_eq]
   exact ⟨hv.2.2.2, nodup_of_hasDup bits hv.2.2.1⟩
 
-/-- **`RouteTotal` holds** for every lawful amplitude ring and every register size -/
-theorem routeTotal_of_c04 (h : LawfulAmp α P) (n : Nat) : RouteTotal α (P := P) n where
+/-- **`RouteTotal` holds** for every lawful amplitude ring and every register size a machine word can
+address (`n < 64`: `Composite::apply_slice` reads the size off the state with `usize::trailing_zeros`) -/
+theorem routeTotal_of_c04 (h : LawfulAmp α P) (n : Nat) (hn : n < 64) : RouteTotal α (P := P) n where
   mat := by
     intro g bits hv m M hlen hrow
-    have hword : WordOK g n := fun hc => by rw [noComposite_of_gateOK g hv.1] at hc; cases hc
+    have hword : WordOK g n := fun _ => hn
     refine ⟨_, applyGateSlice_eq_embed h g (wf_of_gateOK g hv.1) .mat m (okWidth_mat m) n bits hv.2.1
       (validBits_of_place hv) hword M hlen (fun r hr => hrow r hr), ?_, ?_⟩
     · rw [mulState_length, (embed_wf n bits _).1]
@@ -61,7 +65,7 @@ theorem routeTotal_of_c04 (h : LawfulAmp α P) (n : Nat) : RouteTotal α (P := P
       exact mulState_rowsW .mat m (okWidth_mat m) _ _ row hr
   vec := by
     intro g bits hv v hlen
-    have hword : WordOK g n := fun hc => by rw [noComposite_of_gateOK g hv.1] at hc; cases hc
+    have hword : WordOK g n := fun _ => hn
     exact ⟨_, applyGateSlice_eq_embed h g (wf_of_gateOK g hv.1) .vec 1 (fun _ => rfl) n bits hv.2.1
       (validBits_of_place hv) hword v hlen (fun _ _ => rfl)⟩
 
